@@ -220,8 +220,9 @@ pub fn build(rng: &mut StdRng, l: &Value) -> Built {
         }
         "legacy16" | "legacy14" | "legacyb18" => {
             let enc = encode(rng, items_of(&lay["items"]), &fixed);
-            let text = String::from_utf8(enc.bytes.clone()).expect("legacy text is utf-8");
-            let units: Vec<u16> = text.encode_utf16().collect();
+            // (a mutated text may not be UTF-8: the invalid bytes become an unpaired surrogate unit)
+            let text = String::from_utf8_lossy(&enc.bytes).to_string();
+            let units: Vec<u16> = text.encode_utf16().map(|u| if u == 0xfffd { 0xd800 } else { u }).collect();
             let mut stream = vec![0xff];
             stream.extend((units.len() as u16).to_be_bytes());
             for u in units {
